@@ -1,11 +1,18 @@
 import HgVerif.Model.Reduce
+import HgVerif.Model.ReduceInc
+import HgVerif.Model.Slots
 import HgVerif.Driver.Proto
 /-! Model driver for C11: same line protocol as `harness/drv_reduce.cpp`.
 
-The tree maintenance (`evalStructure`) and the published value (`rootOut`, `liftedTslEval`) are the
-definitions the theorems of `Props/C11.lean` are about.  The driver adds only the bookkeeping of the
-surrounding graph: the replayed source collection (`src`), the zero input, and which cycles tick. -/
-open HgVerif.Reduce HgVerif.Driver
+One evaluation of the reduce node is `ReduceInc.cycleL` (operator combiners `add` / `max`: lifted
+kernel) or `ReduceInc.cycleG` (`node` / `graph`: a combiner child graph) — the definitions the theorems
+of `Props/C11Inc.lean` are about; their structural part is `Reduce.evalStructure`
+(`Props/C11.lean`).  The published value is the cached root (`rootVal`), `ev=` the operand pairs of
+the combiner evaluations of the cycle (what the logging node combiner of the harness records).  The
+driver adds only the bookkeeping of the surrounding graph: the replayed source collection (for a TSD
+the slot store of `Model/Slots.lean`, the C05 model, because the node visits removed / added /
+modified keys in SLOT order), the zero input, and which cycles tick. -/
+open HgVerif.Reduce HgVerif.ReduceInc HgVerif.Driver
 
 inductive ZeroCfg where
   | none | ts | const (v : Int)
@@ -19,7 +26,9 @@ structure Cfg where
 structure DS where
   cfg : Cfg := {}
   bad : Bool := false
-  tree : Tree Int := {}
+  lst : LSt Int Int := {}
+  gst : GSt Int Int := {}
+  tsd : HgVerif.Slots.TSD := {}
   src : List (Int × Int) := []
   zeroVal : Option Int := none
   collTicked : Bool := false
@@ -61,6 +70,23 @@ def showOut (o : Option Int) : String := match o with | some v => toString v | n
 
 def reset (d : DS) : DS := { cfg := d.cfg, bad := d.bad }
 
+/-- combiner child graph (`node`, `graph`) or lifted scalar kernel (`add`, `max`) -/
+def genericPath (c : Cfg) : Bool := c.comb == "node" || c.comb == "graph"
+
+def insertSorted (x : Int × Int) : List (Int × Int) → List (Int × Int)
+  | [] => [x]
+  | y :: ys => if x.1 < y.1 || (x.1 == y.1 && x.2 ≤ y.2) then x :: y :: ys else y :: insertSorted x ys
+
+def showEvals (c : Cfg) (evs : List (Int × Int)) : String :=
+  if c.comb != "node" then " ev=-"
+  else
+    let sorted := evs.foldl (fun acc e => insertSorted e acc) []
+    " ev=[" ++ ",".intercalate (sorted.map fun e => s!"{e.1}:{e.2}") ++ "]"
+
+def insertKeySorted (x : Int) : List Int → List Int
+  | [] => [x]
+  | y :: ys => if x ≤ y then x :: y :: ys else y :: insertKeySorted x ys
+
 def cycleStep (d : DS) (ops : List Op) : DS × String :=
   if d.bad then (d, "err:invalid-argument") else
   if unresolvable d.cfg then (d, "err:resolution") else
@@ -93,22 +119,47 @@ def cycleStep (d : DS) (ops : List Op) : DS × String :=
     let tail := " n=- comb=- ngc=-"
     ({ d with src := src2, zeroVal := zeroVal, collTicked := d.collTicked || collTick, cycle := d.cycle + 1,
               out := out, tail := tail },
-     s!"rec={rec_} out={showOut out} mod={b2s tick}{tail}")
+     s!"rec={rec_} out={showOut out} mod={b2s tick}{tail} ev=-")
   else
     let collTicked := d.collTicked || collTick
     let available := list || collTicked
-    -- a full reconcile sees every valid element; a sparse one the modified ones
-    let present := if !d.tree.primed then src2.map (·.1) else sets.map (·.1)
-    let tree := if evaluated then evalStructure hz (d.cycle + 1) d.tree available collTick dels present else d.tree
-    let out := if evaluated || d.tree.published then rootOut f hz zeroVal (srcGet src2) tree else none
+    let now := d.cycle + 1
+    -- the replayed collection: `apply_delta_tsd` erases the removed keys, then writes the modified items in
+    -- the order of the delta's map (ascending key), then touches; a TSL writes the modified indices
+    let setKeys := (sets.map (·.1)).foldl (fun acc k => if acc.contains k then acc else insertKeySorted k acc) []
+    let tsd := if list || !collTick then d.tsd else
+      let t1 := dels.foldl (fun x k => (x.erase now k).1) d.tsd
+      let t2 := setKeys.foldl (fun x k => x.set now k ((srcGet src2 k).getD 0)) t1
+      t2.touchOp now
+    let primed := if genericPath cfg then d.gst.tree.primed else d.lst.tree.primed
+    -- removed / added / modified keys in slot order; a full reconcile sees every valid element
+    let removed := if list || !collTick then [] else tsd.removedAt now
+    let modifiedKeys := if !collTick then [] else if list then setKeys else (tsd.modifiedItemsAt now).map (·.1)
+    let addedKeys := if list || !collTick then [] else tsd.addedAt now
+    let allValid := if list then (src2.map (·.1)).foldl (fun acc k => insertKeySorted k acc) [] else tsd.validKeys
+    let present := if !primed then allValid else addedKeys ++ modifiedKeys
+    let inp : CycleIn Int Int :=
+      { now := now, available := available, collEvent := collTick, zeroEvent := zTick, removed := removed,
+        present := present, ticked := modifiedKeys, src := srcGet src2, zero := zeroVal }
+    let (lst, gst, tree, out, evs) :=
+      if !evaluated then
+        let tree := if genericPath cfg then d.gst.tree else d.lst.tree
+        let st : LSt Int Int := if genericPath cfg then d.gst.toL else d.lst
+        (d.lst, d.gst, tree, (if tree.published then rootVal hz zeroVal (srcGet src2) st else none), [])
+      else if genericPath cfg then
+        let r := cycleG f hz d.gst inp
+        (d.lst, r.st, r.st.tree, r.out, r.evals)
+      else
+        let r := cycleL f hz d.lst inp
+        (r.st, d.gst, r.st.tree, r.out, [])
     let n := tree.keys.length
     let tick := evaluated && out.isSome && (!sets.isEmpty || effectiveDel || (zTick && n ≤ 1))
     let mod := tick || (evaluated && d.out.isSome && out.isNone)
     let rec_ := if tick then showOut out else "-"
     let tail := s!" n={n} comb={combinerCount tree} ngc={nestedGraphCount tree}"
-    ({ d with tree := tree, src := src2, zeroVal := zeroVal, collTicked := collTicked, cycle := d.cycle + 1,
-              out := out, tail := tail },
-     s!"rec={rec_} out={showOut out} mod={b2s mod}{tail}")
+    ({ d with lst := lst, gst := gst, tsd := tsd, src := src2, zeroVal := zeroVal, collTicked := collTicked,
+              cycle := d.cycle + 1, out := out, tail := tail },
+     s!"rec={rec_} out={showOut out} mod={b2s mod}{tail}{showEvals cfg evs}")
 
 def parseCfg (k c z : String) : Option Cfg := do
   let (kind, size) ←
